@@ -2,4 +2,4 @@ From Coq Require Import Extraction ExtrOcamlBasic ExtrOcamlString.
 From Oras Require Import Base.Prelude Model.Paging.
 Extraction Language OCaml.
 Extraction "xc15.ml" loop reg_page reg_serve parse_link is_filter_applied filter_referrers
-  eff_limit max_read limit_size_rejects body_fits mk_request list_tags after tag_schema referrers_wrap mediaTypeImageIndex ping.
+  eff_limit limit_size_rejects body_fits mk_request list_tags after tag_schema referrers_wrap mediaTypeImageIndex ping.
